@@ -13,8 +13,8 @@ ID = "C03"
 RULE = (
     "cases: lint-clean circuit specs with any gate mix (fan-in 1..5), constants 0/1 (and 'x' for the "
     "structural part), outputs that are inputs or constants, 0..2 blackbox instances with connected and "
-    "unconnected input/output pins, node names plain or escaped (backslash + printable non-space "
-    "characters), >= 1 port; behavioral in {False, True}; route = in-memory string, or "
+    "unconnected input/output pins, node names plain, escaped (backslash + printable non-space "
+    "characters) or looking like the gate names the reader synthesises for assign expressions, >= 1 port; behavioral in {False, True}; route = in-memory string, or "
     "to_file/from_file in a temporary directory (suffix and fmt dispatch, inferred module name; unknown "
     "suffix / fmt must raise ValueError). Oracle: c2 = read(write(c)): same name, input set, output set, "
     "same instances with the same BlackBox; every pin has the same driver / driven net or is unconnected "
@@ -33,6 +33,9 @@ EXHAUSTIVE_NOTE = "core: each gate type x fan-in 1..4 x both styles as single-ga
 EXAMPLES = {"quick": 350, "thorough": 8000}
 
 VNAMES = [n for n in S.BENIGN if n not in ("buf", "and", "or", "xor", "not", "nand", "nor", "xnor", "input", "output", "wire", "assign", "module", "endmodule")]
+HELPERLIKE = ["not_a", "not_b", "and_a_b", "and_b_a", "or_a_b", "xor_a_b", "xnor_a_b", "and_a_c", "or_b_c", "not_a_0",
+              "and_a_b_0", "and_and_a_b_c", "xor_xor_a_b_c", "or_or_a_b_c", "and_c_and_a_b", "not_and_a_b", "mux_o_a_b_c",
+              "not_xor_a_b", "not_or_a_b", "or_a_b_0", "xor_a_b_0", "and_a_b_c", "g_0", "g_1"]
 ESC = S.ESCAPED + ["\\g_0", "\\and", "\\1'b0", "\\a&b", "\\~n", "\\assign"]
 
 
@@ -74,6 +77,9 @@ def core(ctx):
 def _case(draw, ctx):
     esc = draw(st.integers(0, 2)) == 0
     pools = (VNAMES, ESC) if esc else (VNAMES,)
+    if draw(st.integers(0, 3)) == 0:
+        # nets named like the gates the reader synthesises for assign expressions
+        pools = (["a", "b", "c", "d"], HELPERLIKE)
     spec = draw(S.circuit_spec(min_inputs=0, max_inputs=4, min_gates=1, max_gates=9, max_fanin=5, pools=pools,
                                const_types=("0", "1", "0", "1", "x") if draw(st.integers(0, 5)) == 0 else ("0", "1"),
                                max_insts=draw(st.sampled_from([0, 0, 1, 2])), unconnected_pins=draw(st.booleans()),
@@ -206,6 +212,8 @@ def check(case, ctx):
     stt = specs.spec_stats(spec)
     labels = [route, "behavioral" if beh else "structural"]
     esc = any(x[0].startswith("\\") for x in spec["nodes"])
+    if any(x[0] in HELPERLIKE for x in spec["nodes"]):
+        labels.append("helper_like_names")
     io_out = any(x[1] == "input" and x[3] for x in spec["nodes"])
     feats = [stt["has_const"] or has_x, stt["has_bb"], esc, io_out, stt["one_input_nary"], stt["max_fanin"] >= 3]
     for nm, f in zip(["const", "blackbox", "escaped", "input_is_output", "one_input_nary", "fanin>=3"], feats):
